@@ -59,41 +59,63 @@ def replay(case):
                  'NameFormat="urn:oasis:names:tc:SAML:2.0:attrname-format:uri"><saml:AttributeValue>%s</saml:AttributeValue>'
                  '</saml:Attribute></mdattr:EntityAttributes></md:Extensions>' % (sb.NS_SAML, RS))
     md = [env.sp_metadata(requested=requested(scn), extra=extra)]
-    idp = spc.idp_for(metadata=md, policy=policy_dict(scn))
+    idp = both_roles(md, policy_dict(scn))
     identity = {}
     for a, vals in scn['ident'].items():
         if vals:
             key = a.upper() if (scn['upper'] and a == 'mail') else a
             identity[key] = [VAL[v] for v in sorted(vals)]
     from saml2_tophat.saml import NameID, NAMEID_FORMAT_TRANSIENT
-    obs = {'identity': identity, 'exc': None}
-    try:
-        res = idp.create_authn_response(identity, 'id1', env.SP_ACS_POST, env.SP,
-                                        name_id=NameID(format=NAMEID_FORMAT_TRANSIENT, text='subject-1'),
-                                        authn={'class_ref': sb.PASSWORD, 'authn_auth': 'x'})
-    except Exception as exc:
-        obs['exc'] = '%s: %s' % (type(exc).__name__, str(exc)[:150])
-        obs['outcome'] = 'exception'
-        return obs
-    text = str(res)
-    obs['doc'] = text
-    root = ET.fromstring(text.encode('utf-8'))
-    ns = {'p': sb.NS_SAMLP, 'a': sb.NS_SAML}
-    status = root.find('p:Status/p:StatusCode', ns)
-    obs['status'] = status.get('Value') if status is not None else None
-    released = dict((a, []) for a in OID)
-    unknown = []
-    for at in root.iter('{%s}Attribute' % sb.NS_SAML):
-        name = OID_REV.get(at.get('Name')) or LOWER.get((at.get('FriendlyName') or '').lower()) or LOWER.get((at.get('Name') or '').lower())
-        vals = [(v.text or '') for v in at.findall('a:AttributeValue', ns)]
-        if name is None:
-            unknown.append([at.get('Name'), vals])
-        else:
-            released[name].extend(VAL_REV.get(v, 'other:' + v) for v in vals)
-    obs['released'] = dict((a, sorted(set(v))) for a, v in released.items())
-    obs['unknown'] = unknown
-    obs['outcome'] = 'assertion' if root.find('a:Assertion', ns) is not None else 'error-response'
+    obs = {'identity': identity, 'paths': {}}
+    nid = NameID(format=NAMEID_FORMAT_TRANSIENT, text='subject-1')
+    calls = {
+        'authn': lambda: idp.create_authn_response(dict(identity), 'id1', env.SP_ACS_POST, env.SP, name_id=nid,
+                                                   authn={'class_ref': sb.PASSWORD, 'authn_auth': 'x'}),
+        # the attribute-authority path: policy of the "aa" service, no best effort
+        'attribute': lambda: idp.create_attribute_response(dict(identity), 'id1', env.SP_ACS_POST, env.SP, name_id=nid),
+    }
+    for path, call in calls.items():
+        o = {'exc': None}
+        try:
+            res = call()
+        except Exception as exc:
+            o['exc'] = '%s: %s' % (type(exc).__name__, str(exc)[:150])
+            o['outcome'] = 'exception'
+            obs['paths'][path] = o
+            continue
+        text = str(res)
+        o['doc'] = text
+        root = ET.fromstring(text.encode('utf-8'))
+        ns = {'p': sb.NS_SAMLP, 'a': sb.NS_SAML}
+        status = root.find('p:Status/p:StatusCode', ns)
+        o['status'] = status.get('Value') if status is not None else None
+        released = dict((a, []) for a in OID)
+        unknown = []
+        for at in root.iter('{%s}Attribute' % sb.NS_SAML):
+            name = OID_REV.get(at.get('Name')) or LOWER.get((at.get('FriendlyName') or '').lower()) or LOWER.get((at.get('Name') or '').lower())
+            vals = [(v.text or '') for v in at.findall('a:AttributeValue', ns)]
+            if name is None:
+                unknown.append([at.get('Name'), vals])
+            else:
+                released[name].extend(VAL_REV.get(v, 'other:' + v) for v in vals)
+        o['released'] = dict((a, sorted(set(v))) for a, v in released.items())
+        o['unknown'] = unknown
+        o['outcome'] = 'assertion' if root.find('a:Assertion', ns) is not None else 'error-response'
+        obs['paths'][path] = o
     return obs
+
+
+_BOTH = {}
+
+
+def both_roles(md, policy):
+    """an entity that is IdP and attribute authority with the same release policy"""
+    key = json.dumps([md, policy], sort_keys=True, default=str)
+    if key not in _BOTH:
+        conf = env.idp_config(metadata_xml=md, policy=policy)
+        conf['service']['aa'] = {'endpoints': {'attribute_service': [('https://idp1.verif.example/attr', env.BINDING_SOAP)]}, 'policy': policy}
+        _BOTH[key] = env.make_idp(conf)
+    return _BOTH[key]
 
 
 def main():
@@ -113,25 +135,28 @@ def main():
             raise fw.Machinery(err)
         scn = case['scn']
         chk.count(scn, nontrivial=True)
-        detail = {'case': case, 'observed': dict((k, v) for k, v in obs.items() if k != 'doc'), 'document': obs.get('doc')}
+        detail = {'case': case}
         key = dict((k, v) for k, v in scn.items() if k != 'ident')
         key['ident'] = json.dumps(scn['ident'], sort_keys=True)
         key['raises'] = case['raises']
-        if obs['outcome'] == 'exception':
-            chk.note('IdP raised for %s: %s' % (json.dumps(scn, sort_keys=True), obs['exc']))
-            continue
-        rel = obs['released']
-        some += any(rel.values())
-        over = dict((a, sorted(set(rel[a]) - set(case['allowed'][a]))) for a in rel if set(rel[a]) - set(case['allowed'][a]))
-        if over or obs['unknown']:
-            chk.violation(key, 'released beyond what the policy allows: %s %s (identity %s, policy %s, SP declares %s, category %s)'
-                          % (over, obs['unknown'] or '', json.dumps(scn['ident'], sort_keys=True), scn['policy'], scn['decl'], scn['hasCat']), detail)
-        elif case['mustReleaseAll'] and obs['outcome'] == 'assertion' and \
-                any(sorted(rel[a]) != sorted(case['allowed'][a]) for a in rel):
-            chk.violation(key, 'less released than identity and restrictions give although nothing else applies: %s vs %s' % (rel, case['allowed']), detail)
-        elif any(sorted(rel[a]) != sorted(case['model'][a]) for a in rel):
-            chk.note('drift: released %s, pipeline model %s for %s' % (rel, case['model'], json.dumps(scn, sort_keys=True)))
-        chk.sample({'scn': scn, 'allowed': case['allowed'], 'released': rel, 'outcome': obs['outcome']}, limit=5)
+        for path, o in sorted(obs['paths'].items()):
+            pkey = dict(key, path=path)
+            if o['outcome'] == 'exception':
+                if path == 'authn':
+                    chk.note('IdP raised for %s: %s' % (json.dumps(scn, sort_keys=True), o['exc']))
+                continue
+            rel = o['released']
+            some += any(rel.values())
+            d2 = dict(detail, path=path, observed=dict((k, v) for k, v in o.items() if k != 'doc'), document=o.get('doc'))
+            over = dict((a, sorted(set(rel[a]) - set(case['allowed'][a]))) for a in rel if set(rel[a]) - set(case['allowed'][a]))
+            if over or o['unknown']:
+                chk.violation(pkey, '%s response releases beyond what the policy allows: %s %s (identity %s, policy %s, SP declares %s, category %s)'
+                              % (path, over, o['unknown'] or '', json.dumps(scn['ident'], sort_keys=True), scn['policy'], scn['decl'], scn['hasCat']), d2)
+            elif case['mustReleaseAll'] and o['outcome'] == 'assertion' and any(sorted(rel[a]) != sorted(case['allowed'][a]) for a in rel):
+                chk.violation(pkey, '%s response: less released than identity and restrictions give although nothing else applies: %s vs %s' % (path, rel, case['allowed']), d2)
+            elif path == 'authn' and any(sorted(rel[a]) != sorted(case['model'][a]) for a in rel):
+                chk.note('drift: released %s, pipeline model %s for %s' % (rel, case['model'], json.dumps(scn, sort_keys=True)))
+            chk.sample({'scn': scn, 'path': path, 'allowed': case['allowed'], 'released': rel, 'outcome': o['outcome']}, limit=5)
     if some == 0 and not chk.violations:
         raise fw.Machinery('nothing was ever released: templates broken')
     chk.cov['exhaustive'] = True
